@@ -368,6 +368,8 @@ def _run_sampling(item, ctx, seed):
             ctx.outcome((method, strat, leaves))
             if exact and abs(mass - 1.0) > 1e-9:
                 ctx.fail("leaf-probabilities-sum-to-one", case, observed=mass, expected=1.0)
+            elif exact:
+                ctx.add("complete_answer_trees_with_leaf_mass_1")
         # unsupported modes raise
         for bad in (BootstrapConfig(sampling_method="proportion", ratio=0.5), BootstrapConfig(smoothing=True),
                     BootstrapConfig(sampling_method="replacement", stratified_sampling="by_nothing")):
